@@ -375,13 +375,33 @@ DdnInterval == IF "ddnMs" \in DOMAIN cfg THEN cfg.ddnMs ELSE 20000
 CorePdrs(s) == {id \in DOMAIN s.pdrs : s.pdrs[id].src = "core"}
 Notifying(s) == \E id \in CorePdrs(s) : s.pdrs[id].far \in DOMAIN s.fars /\ HasBit(s.fars[s.pdrs[id].far].action, ActNOCP)
 AllNotifying(s) == CorePdrs(s) # {} /\ \A id \in CorePdrs(s) : s.pdrs[id].far \in DOMAIN s.fars /\ HasBit(s.fars[s.pdrs[id].far].action, ActNOCP)
+\* did the report line e need the slack of F-DDN-UNFORWARDED (evaluated in the state before the step)
+DdnShadowUsed(e) ==
+  LET u == e.u
+      known == u \in DOMAIN sess /\ sess[u].peer = e.peer
+      forwarded == Len(e.srr) >= 1 /\ e.srr[1].type = "SessionReportRequest"
+      fwdAt == IF u \in DOMAIN ddnLast THEN ddnLast[u][1] ELSE -1
+      seenAt == IF u \in DOMAIN ddnLast THEN ddnLast[u][2] ELSE -1
+  IN /\ Dev("F-DDN-UNFORWARDED") /\ known /\ ~forwarded /\ AllNotifying(sess[u])
+     /\ (fwdAt < 0 \/ 2 * (e.t - fwdAt) >= 3 * DdnInterval)
+     /\ seenAt >= 0 /\ seenAt > fwdAt /\ 2 * (e.t - seenAt) <= 3 * DdnInterval
+
 ReportEv ==
   LET e == Trace[l]  u == e.u  p == e.peer
       known == u \in DOMAIN sess /\ sess[u].peer = p
       s == sess[u]
       forwarded == Len(e.srr) >= 1 /\ e.srr[1].type = "SessionReportRequest"
-      since == IF u \in DOMAIN ddnLast THEN e.t - ddnLast[u] ELSE 0
-      first == u \notin DOMAIN ddnLast
+      \* ddnLast[u] = <<time of the last forwarded notification or -1, time of the last report the rate limiter counted>>
+      fwdAt == IF u \in DOMAIN ddnLast THEN ddnLast[u][1] ELSE -1
+      seenAt == IF u \in DOMAIN ddnLast THEN ddnLast[u][2] ELSE -1
+      since == IF fwdAt >= 0 THEN e.t - fwdAt ELSE 0
+      first == fwdAt < 0
+      \* listed known finding F-DDN-UNFORWARDED: the rate limiter sits in front of the decision to forward and also counts
+      \* reports that are then not forwarded (the session did not ask for notification at that moment); a report that
+      \* follows such a report within the interval is suppressed.  Named slack: only if a counted, unforwarded report
+      \* of this session lies at most 1.5 intervals back.
+      shadowed == Dev("F-DDN-UNFORWARDED") /\ seenAt >= 0 /\ seenAt > fwdAt /\ 2 * (e.t - seenAt) <= 3 * DdnInterval
+      counted == ~forwarded /\ (seenAt < 0 \/ 2 * (e.t - seenAt) >= DdnInterval)
       ends == e.cause = CauseCtxNotFound /\ forwarded /\ known
       seqsOfP == IF p \in DOMAIN srrSeqs THEN srrSeqs[p] ELSE {}
   IN
@@ -392,14 +412,16 @@ ReportEv ==
           /\ stale' = stale \cup RelabelResidue({u}, ToTables(e.dp))
           /\ relabel' = relabel \ {u}
      ELSE UNCHANGED <<sess, ipHeld, teidHeld, ended, stale, relabel>>
-  /\ ddnLast' = IF forwarded THEN Override(ddnLast, [x \in {u} |-> e.t]) ELSE ddnLast
+  /\ ddnLast' = IF forwarded THEN Override(ddnLast, [x \in {u} |-> <<e.t, e.t>>])
+                ELSE IF counted THEN Override(ddnLast, [x \in {u} |-> <<fwdAt, e.t>>])
+                ELSE ddnLast
   /\ srrSeqs' = IF forwarded THEN Override(srrSeqs, [x \in {p} |-> seqsOfP \cup {e.srr[1].seq}]) ELSE srrSeqs
   /\ UNCHANGED <<alive, cfg, assoc, pfd>>
   /\ Obs(e)
   /\ chk' = [ChkOK EXCEPT
        \* due: the session exists, every downlink rule asks for notification, and it is the first report or the interval
        \* has clearly passed (>= 1.5 x) since the last forwarded one
-       !.srrDue = ((known /\ AllNotifying(s) /\ (first \/ 2 * since >= 3 * DdnInterval)) => forwarded),
+       !.srrDue = ((known /\ AllNotifying(s) /\ (first \/ 2 * since >= 3 * DdnInterval)) => (forwarded \/ shadowed)),
        \* none for unknown sessions and for sessions whose downlink rule does not ask for notification
        !.srrNone = ((~known \/ ~Notifying(s)) => Len(e.srr) = 0),
        \* at most one notification per session and interval: never two for one report, none clearly inside (<= 0.5 x)
@@ -548,7 +570,7 @@ Next == /\ l <= Len(Trace)
            \/ NotInject /\ NotReport /\ StopEv
            \/ NotInject /\ NotReport /\ (HbEv \/ AssocEv \/ ReleaseEv \/ LostEv \/ RetransEv \/ PostponeEv \/ RaceEv \/ ListenerDropEv)
            \/ NotInject /\ NotReport /\ NotTs /\ (EndEv \/ KillEv \/ PfdEv \/ EstabEv \/ ModEv \/ DelEv \/ InjectRespEv)
-        /\ used' = used \cup UsedNow \cup (IF Trace[l].ev = "died" THEN {"crash:" \o Trace[l].site} ELSE {}) \cup (IF Trace[l].ev = "race" THEN {"race:" \o Trace[l].pair} ELSE {}) \cup (IF Trace[l].ev = "listenerdrop" THEN {"F-LISTENER-DROP"} ELSE {})      \* the state BEFORE this step (every trace ends with an "end" line)
+        /\ used' = used \cup UsedNow \cup (IF Trace[l].ev = "died" THEN {"crash:" \o Trace[l].site} ELSE {}) \cup (IF Trace[l].ev = "race" THEN {"race:" \o Trace[l].pair} ELSE {}) \cup (IF Trace[l].ev = "listenerdrop" THEN {"F-LISTENER-DROP"} ELSE {}) \cup (IF Trace[l].ev = "report" /\ DdnShadowUsed(Trace[l]) THEN {"F-DDN-UNFORWARDED"} ELSE {})      \* the state BEFORE this step (every trace ends with an "end" line)
         /\ TLCSet(2, used')
 Spec == Init /\ [][Next]_vars
 \* printed at the end: the listed findings that manifested (the check prints a KNOWN-FINDING line for each)
